@@ -218,6 +218,11 @@ func runCodecCase(cfg *codecCfg, idx int, cs *codecCase) fx.Ev {
 	tried, delivered, vcpass := 0, 0, 0
 	var first interface{}
 	try := func(p, l int, pat uint32) {
+		// one undetected corruption refutes the case; after a few of them the rest of the case is not tried (decoding
+		// undetected garbage can allocate gigabytes per attempt: the driver has to survive the code it judges)
+		if delivered+vcpass >= 8 {
+			return
+		}
 		applyBurst(buf, p, l, pat)
 		tried++
 		bad := false
